@@ -202,6 +202,10 @@ def _normals_oracles(rec, groups, dim, meas, bmeas, regions, Q, t, x_in, scale, 
     else:
         signature = "mixed"
     rec.label(f"normals:{signature}")
+    if closed:
+        rec.note_max("honest_err:normals_closed", float(np.abs(N).max()) / bmeas)
+    if signature in ("outward", "closed_inward"):
+        rec.note_max("honest_err:normals_flux", abs(abs(flux) - meas) / meas)
     msg = (f"{what}: int n dS = {N}, (1/d) int (x-x0).n dS = {flux!r}, measure = {meas!r}; regions with inward normals: "
            f"{inward}; regions with non-uniform/misaligned normals: {'+'.join(odd) if odd else 'none'}")
     full = dict(sig, signature=signature, inward=inward)
@@ -211,6 +215,32 @@ def _normals_oracles(rec, groups, dim, meas, bmeas, regions, Q, t, x_in, scale, 
     if closed:
         rec.require(signature == "outward", "normals_outward", msg, **full)
     return signature
+
+
+def _nodal_normals_oracle(rec, mesh, groups, regions, Q, t, sig, what):
+    """mesh.Get_normals (the entry add_pressureLoad uses): at the boundary nodes that lie in exactly one planar
+    region the nodal normal is the element normal of that region (same sign as Get_normals_e_pg there)"""
+    orient = cg.region_orientation(groups, MASS, regions, Q, t)
+    normals, nodes = mesh.Get_normals()
+    normals = np.asarray(normals, float)
+    nodes = np.asarray(nodes, int)
+    rec.require(normals.shape == (nodes.size, 3), "nodal_normals_shape", f"{what}: {normals.shape} for {nodes.size} nodes", **sig)
+    X = np.asarray(mesh.coord, float)[nodes]
+    x0 = (X - t) @ Q
+    member = np.stack([reg.contains(x0[:, 0], x0[:, 1], x0[:, 2], tol=1e-7) for reg in regions], 0)
+    single = member.sum(0) == 1
+    err = 0.0
+    n = 0
+    for k, reg in enumerate(regions):
+        s = orient[reg.name]
+        sel = single & member[k]
+        if s == 0 or not sel.any():
+            continue
+        err = max(err, float(np.abs(normals[sel] - s * (Q @ reg.n_out)).max()))
+        n += int(sel.sum())
+    if n:
+        rec.close(err, 1.0, 1e-9, "nodal_normals", f"{what}: mesh.Get_normals differs from the element normals at {n} nodes "
+                  f"interior to a planar boundary region", **dict(sig, entity="nodal"))
 
 
 @st.composite
@@ -250,6 +280,8 @@ def check_normals_2d(case, rec):
         what = f"{types} {stage} {[o['op'] for o in oo]} travel={sig['travel']}"
         _normals_oracles(rec, m.Get_list_groupElem(1), 2, meas, per, geo.edges, Q, t, Q @ c0 + t,
                          _coord_scale(X0, oo), sig, what, in_plane=k)
+        if not embed:
+            _nodal_normals_oracle(rec, m, m.Get_list_groupElem(1), geo.edges, Q, t, sig, what)
         # the surface elements themselves (embedded in 3D after an out-of-plane motion): one common normal
         s_all = []
         A = 0.0
@@ -302,6 +334,7 @@ def check_normals_3d(case, rec):
         nb = sum(g.Ne for g in groups)
         what = f"{types} {source} {stage} {[o['op'] for o in oo]} faces={'+'.join(str(g.elemType) for g in groups)}"
         _normals_oracles(rec, groups, 3, meas, surf, geo.faces, Q, t, Q @ c0 + t, _coord_scale(X0, oo), sig, what)
+        _nodal_normals_oracle(rec, m, groups, geo.faces, Q, t, sig, what)
     rec.nontrivial(cg.is_generic(ops) and nb >= 2)
 
 
